@@ -54,14 +54,14 @@ CLAIMED = {
     ),
     "C11": (
         "exploration",
-        "Forwarding family scenario (sim/src/fwd.rs): 2-5 real nodes, modes normal/router/switch/hub on tun and tap, 20-120 operations per run (thorough: up to 300): marked frames and packets (24..9000 bytes; destinations claimed / learned / unknown / broadcast / own; truncated frames), time steps of 0/1/switch timeout -1,+0,+1 (switch timeout 2..300 s), restarts on the same address with another claim set, graceful stops, crashes, one-way partitions, optional loss. C11 shapes: router/normal on tun (router on tap with MAC ranges), 1-3 claims per node from a nested/overlapping universe (IPv4 /0../32, IPv6). Oracle per interface read: the next hop (lookup probe) is the peer of a longest-prefix match over the claims in the table dump (independent bit-by-bit matcher) or a cached decision that the history-based reference still holds (made <= switch timeout ago, not beyond its claim's expiry, peer not removed, claim not withdrawn since, not past a sweep); no live claim: router mode emits nothing and the dropped-payload counter rises by one; cache entries never outlive the switch timeout or a sweep after their expiry.",
+        "Forwarding family scenario (sim/src/fwd.rs): 2-5 real nodes, modes normal/router/switch/hub on tun and tap, 20-120 operations per run (thorough: up to 300): marked frames and packets (24..9000 bytes; destinations claimed / learned / unknown / broadcast / own; truncated frames), time steps of 0/1/switch timeout -1,+0,+1 (switch timeout 2..300 s), restarts on the same address with another claim set, graceful stops, crashes, one-way partitions, optional loss. C11 shapes: router/normal on tun (router on tap with MAC ranges), 1-3 claims per node from a nested/overlapping universe (IPv4 /0../32, IPv6). Oracle per interface read: the next hop (lookup probe) is the peer of a longest-prefix match over the claims in the table dump (independent bit-by-bit matcher) or a cached decision that the history-based reference still holds (made <= switch timeout ago, not beyond its claim's expiry, peer not removed, claim not withdrawn since, not past a sweep); no live claim: router mode emits nothing and the dropped-payload counter rises by one; cache entries never outlive the switch timeout, a sweep after their expiry, or a claim of their peer containing the address. Table level (3 of 4 runs after the sweep; sim/src/tbl.rs): one real ClaimTable driven directly with announce / withdraw / disconnect / lookup / learn / time steps of 0, 1, cache timeout, cache timeout+1, claim timeout+1 - all operation sequences of length 4 (thorough: 6) over a 14 operation alphabet, then random histories up to 300 operations - compared after every operation with a reference model written from the property statement (claims with expiries, cached decisions with expiries).",
         "Trusted: simulator seams, the reference matcher (sim/src/refmodel.rs). The exhaustive 8/16-bit prefix universes of the quantifier are a pure-function sweep and are not part of this simulation check; prefix arithmetic is exercised through the generated packets only (boundary addresses of every claim are in the destination grid).",
         "DESIGN.md section 8, C11",
         "seeded operation sequences with time steps around expiry; history-based reference for cached decisions",
     ),
     "C12": (
         "exploration",
-        "Forwarding family scenario (sim/src/fwd.rs): 2-5 real nodes, modes normal/router/switch/hub on tun and tap, 20-120 operations per run (thorough: up to 300): marked frames and packets (24..9000 bytes; destinations claimed / learned / unknown / broadcast / own; truncated frames), time steps of 0/1/switch timeout -1,+0,+1 (switch timeout 2..300 s), restarts on the same address with another claim set, graceful stops, crashes, one-way partitions, optional loss. C12 shapes add membership changes in every run and tap/switch meshes (learned addresses). Oracle after every step of every node: every next hop in claims and cache is a current peer; the set of claims attributed to a connected peer equals the last announcement processed from it (history of ClaimsSet probes; missing claims accepted only after the peer timeout); nothing survives a sweep that ran after its timeout; no non-peer is ever selected as next hop.",
+        "Forwarding family scenario (sim/src/fwd.rs): 2-5 real nodes, modes normal/router/switch/hub on tun and tap, 20-120 operations per run (thorough: up to 300): marked frames and packets (24..9000 bytes; destinations claimed / learned / unknown / broadcast / own; truncated frames), time steps of 0/1/switch timeout -1,+0,+1 (switch timeout 2..300 s), restarts on the same address with another claim set, graceful stops, crashes, one-way partitions, optional loss. C12 shapes add membership changes in every run and tap/switch meshes (learned addresses). Oracle after every step of every node: every next hop in claims and cache is a current peer; the set of claims attributed to a connected peer equals the last announcement processed from it (history of ClaimsSet probes; missing claims accepted only after the peer timeout); nothing survives a sweep that ran after its timeout; no non-peer is ever selected as next hop. Table level as for C11 (same driver, announcement-centred: any subset, order and duplicates of 6 ranges by 3 peers; exhaustive to length 4 / 6): the table's claims with their expiries equal the announcement history after every operation.",
         "Trusted: simulator seams; ClaimsSet/PeerRemoved probes as the record of what the node processed. Claim comparison is by set (duplicates in an announcement are not distinguished).",
         "DESIGN.md section 8, C12",
         "seeded membership histories; invariant after every step against the announcement history",
@@ -75,14 +75,14 @@ CLAIMED = {
     ),
     "C01": (
         "exploration",
-        "Node level: 2-4 real nodes over 1-4 key pairs (explicit or password-derived), each node's trusted set any subset of the keys, random dial orientation per pair, staggered starts, optional restart, mild loss / duplication / in-flight bit flips and truncation, then a reliable phase; an adversary that sees every genuine handshake datagram reacts with field edits (stage, node-id hash, ECDH key, cipher list, payload, part and signature lengths, signature bytes), single bit flips, truncations, length corruptions and random bodies behind the marker, sent to the original destination (racing the genuine datagram), back at the sender, or from an unknown address - which reaches receivers that are fresh, awaiting pong, awaiting peng, established with and without lingering handshake. Oracles: (a) after every step every peer entry is backed by mutual trust; (b) every handshake datagram that, as the receiver parses it (stale buffer tail included), carries no valid signature of a key the receiver trusts - decided by an independent reference verifier (sim/src/refmodel.rs) - changes no state and causes no reply; (c) every dialled, mutually trusting pair ends connected.",
+        "Node level: 2-4 real nodes over 1-4 key pairs (explicit or password-derived), each node's trusted set any subset of the keys, random dial orientation per pair, staggered starts, optional restart, mild loss / duplication / in-flight bit flips and truncation, then a reliable phase; an adversary that sees every genuine handshake datagram reacts with field edits (stage, node-id hash, ECDH key, cipher list, payload, part and signature lengths, signature bytes), single bit flips, truncations, length corruptions and random bodies behind the marker, sent to the original destination (racing the genuine datagram), back at the sender, or from an unknown address - which reaches receivers that are fresh, awaiting pong, awaiting peng, established with and without lingering handshake. Oracles: (a) after every step every peer entry is backed by mutual trust; (b) every handshake datagram that, as the receiver parses it (stale buffer tail included), carries no valid signature of a key the receiver trusts - decided by an independent reference verifier (sim/src/refmodel.rs) - changes no state and causes no reply; (c) every dialled, mutually trusting pair ends connected; (d) payload reaches an interface only from a sender that completed a handshake with a mutually trusted key (unsealed payload is presented from addresses of handshakes in progress).",
         "Trusted: simulator seams, the reference verifier (own TLV walk + ring Ed25519 verify), snapshots as the definition of 'state' (peers, pending handshakes and stages, lingering stage, claim table, own addresses, reconnect entries - not the replay window or traffic counters). Steps in which housekeeping ran are excluded from the no-reply clause. The exhaustive every-bit / every-truncation sweep per stage of the quantifier is sampled, not enumerated.",
         "DESIGN.md section 8, C01",
         "seeded trust relations and reactive adversary; invariant + before/after snapshot per unverifiable datagram",
     ),
     "C02": (
         "exploration",
-        "Node level: 2-3 real tun nodes with cipher lists from {default, aes128, aes256, chacha20, plain, plain+aes256, chacha20+aes128} (plain on none / one / both ends), a never-answering configured peer at node 0; 10-60 marked frames per run, the first of length (i mod 301) so that every length 0..=300 occurs once per 301 runs, others up to 9000 bytes; after each frame one sealed datagram on the wire (data or node info) is tampered with: one bit flipped in key id / counter / ciphertext / tag, truncation at any length, reflection to its sender, presentation on another connection of a 3-node mesh with matching source address, extension; unsealed payload from the address of a pending handshake. Oracles: every interface write is byte-identical to the frame read at the sending peer and stems from an unmodified copy of its datagram; a tampered datagram causes no write, no state change, no reply; two ticks later untouched frames are delivered exactly once on every connection; the complete wire capture of pairs that did not both enable plain contains no 16-byte window of payload or of any node id.",
+        "Node level: 2-3 real tun nodes with cipher lists from {default, aes128, aes256, chacha20, plain, plain+aes256, chacha20+aes128} (plain on none / one / both ends), a never-answering configured peer at node 0; 10-60 marked frames per run, the first of length (i mod 301) so that every length 0..=300 occurs once per 301 runs, others up to 9000 bytes; after each frame one sealed datagram on the wire (data or node info) is tampered with: one bit flipped in key id / counter / ciphertext / tag, truncation at any length, reflection to its sender, presentation on another connection of a 3-node mesh with matching source address, extension; unsealed payload from the address of a pending handshake; datagrams sealed by the outsider under guessable keys (all-zero, all-ones) for every cipher, key slot and nonce half. Oracles: every interface write is byte-identical to the frame read at the sending peer and stems from an unmodified copy of its datagram; a tampered datagram causes no write, no state change, no reply; two ticks later untouched frames are delivered exactly once on every connection; the complete wire capture of pairs that did not both enable plain contains no 16-byte window of payload or of any node id.",
         "Trusted: simulator seams and the harness' attribution of wire datagrams (origin genuine / tampered, cause interface read). Bit positions and truncation lengths are sampled per region, not enumerated per datagram; encoded claims are not searched for separately (they travel in the same sealed node-info message as the node id).",
         "DESIGN.md section 8, C02",
         "seeded traffic with one tampering per frame; attribution of every interface write + wire scan",
@@ -96,7 +96,7 @@ CLAIMED = {
     ),
     "C04": (
         "exploration",
-        "Pair level: whole connection lifetimes of a real PeerCrypto pair - handshake by one side or both at once with reordered/duplicated datagrams, 300-1500 ticks per end (thorough: up to 4000; 120 ticks per rotation cycle), rotation messages lost/duplicated/reordered/delayed, a probe sealed in both directions after every step, nonce starts shaped to sit below carry boundaries of 1-6 bytes, the counter placed 1-40 seals below the 56 bit limit. Oracle over the seal log (every encrypt call): no (key, nonce) pair twice, strictly increasing per (end, key), different top bytes at the two ends of a key, every key starts exactly at the generator's bytes and its first seal is start+1, past the 56 bit limit the peer opens nothing and below it everything.",
+        "Pair level. Two thirds of the runs: whole connection lifetimes of a real PeerCrypto pair - handshake by one side or both at once with reordered/duplicated datagrams, 300-1500 ticks per end (thorough: up to 4000; 120 ticks per rotation cycle), rotation messages lost/duplicated/reordered/delayed, a probe sealed in both directions after every step, nonce starts shaped to sit below carry boundaries of 1-6 bytes, the counter placed 1-40 seals below the 56 bit limit. Oracle over the seal log (every encrypt call): no (key, nonce) pair twice, strictly increasing per (end, key), different top bytes at the two ends of a key, every key starts exactly at the generator's bytes and its first seal is start+1, past the 56 bit limit the peer opens nothing and below it everything. One third of the runs walk the two-party handshake schedules of C05 (exhaustive sweep of length 4 / 6, then random schedules with forced re-dials) under the same seal-log oracles plus: the two ends of one key install it with opposite nonce halves. One lifetime in fifty is longer than 128 rotation cycles.",
         "Trusted: the Seal/NonceStart probes (src/crypto/core.rs, guarded) and the key fingerprint (AEAD tag of the empty message under the reserved all-ones nonce). Unpredictability is checked as 'equals what the generator handed out', not statistically.",
         "DESIGN.md section 8, C04",
         "seeded lifetimes with shaped nonce starts and counter placement; global seal-log uniqueness",
@@ -110,8 +110,8 @@ CLAIMED = {
     ),
     "C07": (
         "exploration",
-        "Pair level: an established real PeerCrypto pair (real rotation state, real key slots); 300-1500 ticks per end (thorough: up to 4000) at independent rates, rotation messages lost (10-60 %), duplicated, reordered, delayed by up to 600 ticks during a fault phase covering 0-75 % of the run. After every step each end seals a probe and the other must open it to the same bytes; in the fault-free suffix (after 4 intervals of recovery) the sealing key of each direction changes at least once per window of 2 rotation intervals + 1 tick.",
-        "Trusted: L1 driver. The exhaustive depth-12 schedule enumeration of the quantifier is replaced by seeded schedules over 2-30 rotation cycles.",
+        "Pair level. A seed-indexed sweep enumerates all schedules of length 6 (thorough: 8) over {rotation cycle at A, cycle at B, deliver the oldest / newest in-flight rotation message, deliver a duplicate, drop} with a probe in both directions after every operation. Random part: an established real PeerCrypto pair (real rotation state, real key slots); 300-1500 ticks per end (thorough: up to 4000) at independent rates, rotation messages lost (10-60 %), duplicated, reordered, delayed by up to 600 ticks during a fault phase covering 0-75 % of the run. After every step each end seals a probe and the other must open it to the same bytes; in the fault-free suffix (after 4 intervals of recovery) the sealing key of each direction changes at least once per window of 2 rotation intervals + 1 tick.",
+        "Trusted: L1 driver. The exhaustive enumeration reaches depth 6 / 8 instead of 12; beyond that seeded schedules over 2-30 rotation cycles, and one lifetime in fifty over more than 128 cycles (message ids beyond 255).",
         "DESIGN.md section 8, C07",
         "seeded rotation schedules with message faults; probe-after-every-step invariant + bounded freshness",
     ),
